@@ -2,7 +2,7 @@
    (total-sum, max, held) after any history of messages and blocks, and the user-message clauses
    (escrow, frame, reject) on every create / bond / reclaim step.  This is what connects "the real
    trace passes the checker and equals the model's trace" with the theorems of Proofs/Layer2.v. *)
-From Sekai Require Import Base.Prelude Base.Dec Model.Layer2 Model.C20Check Proofs.Layer2.
+From Sekai Require Import Base.Prelude Base.Dec Model.Layer2 Model.C20Check Proofs.Layer2 Proofs.Layer2All.
 From Coq Require Import ZifyBool.
 
 (* the observation the harness would make of a model state (LP part: the denominations asked for) *)
@@ -26,18 +26,18 @@ Proof. reflexivity. Qed.
 Lemma totals_snap users dens ok st : zsum (map snd (o_dapps (snap users dens ok st))) = sum_totals (dapps st).
 Proof. simpl. rewrite map_map. reflexivity. Qed.
 
-Lemma state_clauses_sound c N Us users dens ok st : Inv c N Us st -> state_clauses (max_thr c) (snap users dens ok st) = [].
+Lemma state_clauses_sound c N Us k users dens ok st : 0 <= k -> Inv c N Us k st -> state_clauses (max_thr c) (snap users dens ok st) = [].
 Proof.
-  intros I. unfold state_clauses. apply cl3.
-  3: { rewrite totals_snap. simpl. pose proof (i_held _ _ _ _ I). lia. }
+  intros Hk I. unfold state_clauses. apply cl3.
+  3: { rewrite totals_snap. simpl. pose proof (i_held _ _ _ _ _ I). lia. }
   2: { apply forallb_forall. intros e He. simpl in He. apply in_map_iff in He. destruct He as (d & <- & Hd). simpl.
     destruct (d_status d =? 0) eqn:S; [|reflexivity]. simpl.
-    assert (F : find_dapp (d_name d) (dapps st) = Some d) by (apply In_find; auto; apply (i_uniq _ _ _ _ I)).
-    pose proof (i_max _ _ _ _ I _ d F). lia. }
+    assert (F : find_dapp (d_name d) (dapps st) = Some d) by (apply In_find; auto; apply (i_uniq _ _ _ _ _ I)).
+    pose proof (i_max _ _ _ _ _ I _ d F). lia. }
   apply forallb_forall. intros e He. simpl in He. apply in_map_iff in He. destruct He as (d & <- & Hd). simpl fst. simpl snd.
     destruct (d_status d =? 0) eqn:S; [|reflexivity]. simpl. rewrite obonds_of_snap.
-    assert (F : find_dapp (d_name d) (dapps st) = Some d) by (apply In_find; auto; apply (i_uniq _ _ _ _ I)).
-    pose proof (i_sum _ _ _ _ I _ d F). lia.
+    assert (F : find_dapp (d_name d) (dapps st) = Some d) by (apply In_find; auto; apply (i_uniq _ _ _ _ _ I)).
+    pose proof (i_sum _ _ _ _ _ I _ d F). lia.
 Qed.
 
 (* ---------------------------------------------------------------- user messages *)
@@ -87,6 +87,7 @@ Section UserStep.
 Variable v : variant.
 Variable c : config.
 Variable N Us : list string.
+Variable k : Z.
 Variable users dens : list string.
 Hypothesis Hsep : separated v N Us.
 Hypothesis Hus : users_ok Us.
@@ -95,7 +96,7 @@ Hypothesis Hum : users_ok users.
 
 (* the checker's clauses for a create / bond / reclaim step hold between the model's snapshots *)
 Lemma user_clauses_sound st o u n g :
-  Inv c N Us st -> op_in v c N Us o -> op_actor o = Some (u, n) -> In u users ->
+  Inv c N Us k st -> op_in v c N Us o -> op_actor o = Some (u, n) -> In u users ->
   g_prev g = snap users dens true st ->
   user_clauses users g (snap users dens (is_ok (step v c st o)) (apply v c st o)) u n = [].
 Proof.
@@ -103,7 +104,7 @@ Proof.
   assert (Huo : is_user_op o = true) by (destruct o; simpl in *; try discriminate; reflexivity).
   destruct (step v c st o) as [st'| |] eqn:E; simpl is_ok; cbv iota; try (apply cl_nil, same_state_refl).
   destruct (uidx_spec users u Hu) as (i & Hi & Hn & Hl). rewrite Hi.
-  destruct (user_step v c N Us Hsep Hus st o st' I Ho Huo E) as [P Q].
+  destruct (user_step v c N Us k Hsep Hus st o st' I Ho Huo E) as [P Q].
   destruct (own_flow o u n Ha) as (F1 & F2 & F3).
   assert (Hmu : u <> MOD) by now apply Hum.
   apply cl2.
@@ -125,4 +126,15 @@ End UserStep.
 Lemma state_clauses_sound_fixed v c users dens ok ops l :
   fixed v -> 0 <= bal MOD UKEX l -> Forall wf_op ops ->
   state_clauses (max_thr c) (snap users dens ok (run v c ops (empty_state l))) = [].
-Proof. intros Hf Hl W. eapply state_clauses_sound. apply (fixed_inv v c Hf ops l Hl W). Qed.
+Proof. intros Hf Hl W. eapply state_clauses_sound; [exact Hl|]. apply (fixed_inv v c Hf ops l Hl W). Qed.
+
+(* the pool-native clause (recorded pool bonds move exactly by the ukex entering / leaving the module) holds
+   between the snapshots around EVERY operation inside its guard: messages, blocks, proposals, keeper-level LP calls *)
+Lemma pool_native_sound v c N Us k users dens ok ok' st o :
+  separated v N Us -> users_ok Us -> Inv c N Us k st -> op_ok v c N Us st o ->
+  cl "pool-native" (zsum (map snd (o_dapps (snap users dens ok' (apply v c st o)))) - zsum (map snd (o_dapps (snap users dens ok st)))
+                    =? o_mod (snap users dens ok' (apply v c st o)) - o_mod (snap users dens ok st)) = [].
+Proof.
+  intros Hs Hu I Ho. pose proof (apply_ok_inv v c N Us k Hs Hu st o I Ho) as I'.
+  apply cl_nil. rewrite !totals_snap. simpl. pose proof (i_held _ _ _ _ _ I). pose proof (i_held _ _ _ _ _ I'). lia.
+Qed.
